@@ -6,6 +6,7 @@ import (
 	"strings"
 
 	"go.pennock.tech/tabular"
+	"go.pennock.tech/tabular/length"
 	"go.pennock.tech/tabular/properties"
 	"go.pennock.tech/tabular/properties/align"
 )
@@ -101,6 +102,9 @@ type RowSpec struct {
 	// further rows have joined the table (or at the end of the build).
 	Late      []ItemSpec `json:"late,omitempty"`
 	LateAfter int        `json:"late_after,omitempty"`
+	// Twice: the pre-built row (How 1 or 3) is passed to AddRow a second time
+	// right away, so that it occupies two consecutive positions.
+	Twice bool `json:"twice,omitempty"`
 }
 
 type TableSpec struct {
@@ -113,6 +117,13 @@ type TableSpec struct {
 	// happens through a wrapper that lives across the whole build (harnesses
 	// that opt in: BuildRender).
 	Stages []int `json:"stages,omitempty"`
+	// Header2: AddHeaders is called a second time, after all rows (and after a
+	// staged render when Stages is non-empty), replacing the header row.
+	Header2 *[]ItemSpec `json:"header2,omitempty"`
+	// AlignEarly / SkipEarly: column properties set before any row is added, on
+	// the columns that exist by then; Align / Skip (set last) override them.
+	AlignEarly map[int]int `json:"align_early,omitempty"`
+	SkipEarly  map[int]int `json:"skip_early,omitempty"`
 }
 
 func makeItems(specs []ItemSpec) []interface{} {
@@ -176,7 +187,33 @@ func (ts TableSpec) BuildStaged(t tabular.Table, hook func()) {
 			t.AddHeaders(makeItems(*ts.Header)...)
 		}
 	}
-	done := false
+	setProps := func(al, sk map[int]int) {
+		for c, a := range al {
+			if col := t.Column(c); col != nil {
+				col.SetProperty(align.PropertyType, alignVals[a])
+			}
+		}
+		for c, s := range sk {
+			if col := t.Column(c); col != nil {
+				switch s {
+				case 1:
+					col.SetProperty(properties.Skipable, true)
+				case 2:
+					col.SetProperty(properties.Skipable, false)
+				case 3:
+					col.SetProperty(properties.Skipable, "yes")
+				}
+			}
+		}
+	}
+	if ts.HeaderAt <= 0 && len(ts.AlignEarly)+len(ts.SkipEarly) > 0 && ts.Header != nil {
+		// the header first, so that its columns exist when the early properties are set
+		t.AddHeaders(makeItems(*ts.Header)...)
+		setProps(ts.AlignEarly, ts.SkipEarly)
+	} else {
+		setProps(ts.AlignEarly, ts.SkipEarly)
+	}
+	done := ts.HeaderAt <= 0 && len(ts.AlignEarly)+len(ts.SkipEarly) > 0 && ts.Header != nil
 	for i, r := range ts.Rows {
 		if !done && ts.HeaderAt <= i {
 			addHeader()
@@ -196,6 +233,9 @@ func (ts TableSpec) BuildStaged(t tabular.Table, hook func()) {
 				row.Add(tabular.NewCell(it))
 			}
 			t.AddRow(row)
+			if r.Twice {
+				t.AddRow(row)
+			}
 		case r.How == 2:
 			row := t.AppendNewRow()
 			for _, it := range makeItems(r.Cells) {
@@ -206,7 +246,7 @@ func (ts TableSpec) BuildStaged(t tabular.Table, hook func()) {
 		}
 		flush(false)
 		if len(r.Late) > 0 {
-			late = append(late, pending{i, r.LateAfter, r.Late})
+			late = append(late, pending{t.NRows() - 1, r.LateAfter, r.Late})
 			flush(false)
 		}
 		if hook != nil && staged[i] {
@@ -217,22 +257,59 @@ func (ts TableSpec) BuildStaged(t tabular.Table, hook func()) {
 	if !done {
 		addHeader()
 	}
+	if ts.Header2 != nil {
+		if hook != nil && len(ts.Stages) > 0 {
+			hook()
+		}
+		t.AddHeaders(makeItems(*ts.Header2)...)
+	}
 	// column properties are set last, when the columns exist
-	for c, a := range ts.Align {
-		if col := t.Column(c); col != nil {
-			col.SetProperty(align.PropertyType, alignVals[a])
+	setProps(ts.Align, ts.Skip)
+}
+
+// enrichSpec adds, with small probabilities, the multi-step features a plain
+// shape lacks: a second AddHeaders after the rows (preceded by a staged render
+// so that a reused wrapper has seen the first header), column properties set
+// before the rows and overridden afterwards, a pre-built row attached twice.
+func enrichSpec(r *RNG, ts *TableSpec, text func(*RNG) ItemSpec) {
+	if ts.Header != nil && r.Pct(10) {
+		n := len(*ts.Header)
+		if r.Pct(30) {
+			n = r.Intn(n + 2)
+		}
+		h2 := make([]ItemSpec, n)
+		for i := range h2 {
+			h2[i] = text(r)
+		}
+		ts.Header2 = &h2
+		if len(ts.Stages) == 0 && len(ts.Rows) > 0 {
+			ts.Stages = []int{len(ts.Rows) - 1}
 		}
 	}
-	for c, s := range ts.Skip {
-		if col := t.Column(c); col != nil {
-			switch s {
-			case 1:
-				col.SetProperty(properties.Skipable, true)
-			case 2:
-				col.SetProperty(properties.Skipable, false)
-			case 3:
-				col.SetProperty(properties.Skipable, "yes")
+	if r.Pct(10) {
+		ts.AlignEarly = map[int]int{0: 1 + r.Intn(3)}
+		if r.Bool() {
+			ts.AlignEarly[1+r.Intn(2)] = 1 + r.Intn(3)
+		}
+		if ts.Align == nil {
+			ts.Align = map[int]int{}
+		}
+		if r.Bool() {
+			ts.Align[0] = 1 + r.Intn(3) // the default is changed after the columns exist
+		}
+	}
+	if r.Pct(6) {
+		ts.SkipEarly = map[int]int{0: 1 + r.Intn(2)}
+		if r.Bool() {
+			if ts.Skip == nil {
+				ts.Skip = map[int]int{}
 			}
+			ts.Skip[0] = 1 + r.Intn(2)
+		}
+	}
+	for i := range ts.Rows {
+		if !ts.Rows[i].Sep && (ts.Rows[i].How == 1 || ts.Rows[i].How == 3) && r.Pct(5) {
+			ts.Rows[i].Twice = true
 		}
 	}
 }
@@ -248,7 +325,10 @@ func (ts TableSpec) Size() int {
 			n += len(c.B) + len(c.S)
 		}
 	}
-	return n + len(ts.Align) + len(ts.Skip) + 3*len(ts.Stages)
+	if ts.Header2 != nil {
+		n += 2 + len(*ts.Header2)
+	}
+	return n + len(ts.Align) + len(ts.Skip) + 3*len(ts.Stages) + 2*len(ts.AlignEarly) + 2*len(ts.SkipEarly)
 }
 
 // ---------------------------------------------------------------- view
@@ -297,12 +377,45 @@ func (ts TableSpec) SpecView() View {
 			cs[i] = tabular.NewCell(it)
 		}
 		vc := viewCells(cs)
+		for i := range vc {
+			if items[i].K == "str" {
+				vc[i].Text = string(items[i].B) // a string item is its own text
+			}
+			vc[i].Empty = vc[i].Text == "" // empty exactly when the text is (C01)
+			// sizes: the item's own declaration when it has one (Go's type
+			// assertion decides), else the number of lines and the widest
+			// line under the library's per-line measure (C18) - not whatever
+			// the cell's cached fields say
+			lines := strings.Split(vc[i].Text, "\n")
+			if lines[len(lines)-1] == "" {
+				lines = lines[:len(lines)-1]
+			}
+			it := cs[i].Item()
+			if _, ok := it.(tabular.TerminalCellWidther); !ok {
+				vc[i].TW = 0
+				for _, l := range lines {
+					if w := length.StringCells(l); w > vc[i].TW {
+						vc[i].TW = w
+					}
+				}
+			}
+			if _, ok := it.(tabular.Heighter); !ok {
+				vc[i].H = len(lines)
+			}
+		}
 		return &vc
 	}
 	v := View{}
 	if ts.Header != nil {
 		v.Header = mk(*ts.Header)
 		v.NCols = len(*ts.Header)
+	}
+	if ts.Header2 != nil {
+		// the last header is the header; the column count never shrinks
+		v.Header = mk(*ts.Header2)
+		if len(*ts.Header2) > v.NCols {
+			v.NCols = len(*ts.Header2)
+		}
 	}
 	for _, r := range ts.Rows {
 		if r.Sep {
@@ -314,9 +427,27 @@ func (ts TableSpec) SpecView() View {
 			v.NCols = len(all)
 		}
 		v.Rows = append(v.Rows, mk(all))
+		if r.Twice && (r.How == 1 || r.How == 3) {
+			v.Rows = append(v.Rows, mk(all))
+		}
+	}
+	// columns that exist when the early properties are set: column 0, plus the
+	// first header's when it is added first
+	early := 0
+	if ts.HeaderAt <= 0 && ts.Header != nil {
+		early = len(*ts.Header)
 	}
 	for i := 0; i <= v.NCols; i++ {
-		a, s := ts.Align[i], ts.Skip[i]
+		a, s := 0, 0
+		if i <= early {
+			a, s = ts.AlignEarly[i], ts.SkipEarly[i]
+		}
+		if x, ok := ts.Align[i]; ok {
+			a = x
+		}
+		if x, ok := ts.Skip[i]; ok {
+			s = x
+		}
 		v.Align = append(v.Align, a)
 		v.Skip = append(v.Skip, s)
 	}
